@@ -272,3 +272,214 @@ def sanitizer_clause(rep, quick):
             rep.violation("RDKit rejects decoder output %r" % out, {"tokens": toks, "output": out})
     rep.notes["sanitizer_inputs"] = n
     rep.traces += n
+
+
+# --------------------------------------------------------------------------
+# helpers shared by the remaining decoder-side checks
+# --------------------------------------------------------------------------
+
+def add_results(rep, name, results, **info):
+    st = sum(r.distinct for r in results)
+    rep.states += st
+    rep.transitions += sum(r.generated for r in results)
+    c = {"config": name, "distinct_states": st, "exhaustive": all(r.completed for r in results)}
+    c.update(info)
+    rep.configs.append(c)
+    for r in results:
+        if r.violated:
+            rep.violation("specification-level: %s violated in %s" % (r.violated, name), {"errors": r.errors[:2]})
+
+
+def const_checks(rep, impl=True):
+    r, failed = de.run_const_checks()
+    rep.add_tlc(r, "ConstChecks (ASSUMEs)")
+    if failed:
+        raise MachineryError("constant-level obligation of the specification is false: %s" % failed)
+    bad = []
+    if impl:
+        txt, names = de.impl_tables_module()
+        r, failed = de.run_const_checks(txt, "ImplTables")
+        rep.add_tlc(r, "ImplTables (tables of the working tree = tables of the specification)")
+        rep.notes["impl_tables_compared"] = names
+        bad = failed
+    return bad
+
+
+def trace_validate(rep, name, recs, table, compat=False, classify=default_classify):
+    results, events = de.validate_decoder_trace(name, recs, table, compat)
+    for r in results:
+        rep.states += r.distinct
+        rep.transitions += r.generated
+    rep.traces += len(recs)
+    rep.configs.append({"config": "trace_" + name, "calls": len(recs), "symbols": sum(len(r["inp"]) for r in recs),
+                        "max_symbols": max([len(r["inp"]) for r in recs] or [0]),
+                        "machine_steps": sum(r.generated for r in results)})
+    bad = {}
+    for e in events:
+        if e.get("ev") in ("MISMATCH", "CLAUSE"):
+            bad.setdefault(e["tid"], e)
+    for tid, e in sorted(bad.items()):
+        classify(rep, recs[tid], e, table, compat)
+    return events
+
+
+# --------------------------------------------------------------------------
+# C13 - [nop] padding is invisible
+# --------------------------------------------------------------------------
+
+NOP_ALPHA = ["[nop]", "[C]", "[=C]", "[O]", "[Branch1]", "[=Branch2]", "[Ring1]", "[Ring2]", ".", "[=Ring1]"]
+
+
+def check_C13(tier):
+    rep = Report("C13", tier)
+    quick = tier == "quick"
+    rep.notes["rule"] = ("all strings up to the bound over an alphabet with [nop]; at every terminal state the "
+                         "specification compares with its own run on the [nop]-free string (NopInvisible); each "
+                         "vector is replayed twice into selfies.decoder (with and without its [nop]s); "
+                         "non-trivial = contains [nop] and at least one other symbol")
+    n = 5 if quick else 6
+    results, vectors = de.run_decoder_tlc("nop", NOP_ALPHA, "default", n, emit=True, invariants=["NopInvisible"],
+                                          fastjit=quick)
+    add_results(rep, "nop_default", results, alphabet=NOP_ALPHA, max_symbols=n, vectors=len(vectors))
+    vs = [v for v in vectors if "[nop]" in v["inp"]]
+    mism = de.replay_decoder_vectors(vs, "default")
+    stripped = [dict(v, inp=[t for t in v["inp"] if t != "[nop]"]) for v in vs]
+    mism += de.replay_decoder_vectors(stripped, "default")
+    rep.traces += 2 * len(vs)
+    for v in vs:
+        rep.case(tuple(v["inp"]), nontrivial=len(set(v["inp"])) > 1)
+    for v in vs[:: max(1, len(vs) // 2)][:2]:
+        rep.sample({"input": "".join(v["inp"]), "expect": [v["kind"], v["out"]]})
+    judge_mismatches(rep, "nop", mism, "default", False, default_classify)
+    # long strings with random [nop] insertion + padding through the encoding utilities
+    rng = random.Random(seed() * 31 + 13)
+    sf = de.selfies_mod()
+    pairs = []
+    for _ in range(150 if quick else 1500):
+        base = [t for t in gens.alive_selfies(rng, rng.randint(3, 80 if quick else 300)) if t != "[nop]"]
+        padded = list(base)
+        for _ in range(rng.randint(1, 8)):
+            padded.insert(rng.randint(0, len(padded)), "[nop]")
+        pairs.append((base, padded))
+    for tab in ("default", "wide"):
+        recs_b = de.record_decoder([b for b, _ in pairs], TABLES[tab])
+        recs_p = de.record_decoder([p for _, p in pairs], TABLES[tab])
+        for rb, rp in zip(recs_b, recs_p):
+            if (rb["kind"], rb["out"]) != (rp["kind"], rp["out"]):
+                rep.violation("[nop] changes the result: %r -> %s %r but without [nop] %s %r" % (
+                    "".join(rp["inp"]), rp["kind"], rp["out"], rb["kind"], rb["out"]),
+                    {"padded": rp["inp"], "base": rb["inp"], "table": TABLES[tab]})
+        trace_validate(rep, "C13_%s" % tab, recs_p, TABLES[tab])
+    # selfies_to_encoding(pad_to_len) -> encoding_to_selfies -> decoder
+    npad = 0
+    for base, _ in pairs[: (60 if quick else 400)]:
+        s = "".join(base)
+        symbols = sorted(set(base) | {"[nop]", "."})
+        stoi = {x: i for i, x in enumerate(symbols)}
+        itos = {i: x for x, i in stoi.items()}
+        try:
+            lab = sf.selfies_to_encoding(s, stoi, pad_to_len=len(base) + rng.randint(0, 6), enc_type="label")
+            back = sf.encoding_to_selfies(lab, itos, enc_type="label")
+        except Exception as e:
+            rep.violation("padding utilities raised %s on %r" % (type(e).__name__, s), {"input": s})
+            continue
+        a, b = de.call_decoder(s), de.call_decoder(back)
+        npad += 1
+        if a != b:
+            rep.violation("padded string decodes differently: %r vs %r" % (a, b), {"input": s, "padded": back})
+    rep.traces += npad
+    rep.notes["padding_round_trips"] = npad
+    rep.exhaustive = True
+    return rep.finish()
+
+
+# --------------------------------------------------------------------------
+# C18 - compatible=True is a conservative extension
+# --------------------------------------------------------------------------
+
+def check_C18(tier):
+    rep = Report("C18", tier)
+    quick = tier == "quick"
+    rep.notes["rule"] = ("all strings up to the bound over an alphabet mixing modern and pre-v2 symbols, with the "
+                         "flag on and off; CompatIsModern at terminal states; ConstChecks: Modernize fixes every "
+                         "modern symbol and maps the legacy table as documented; non-trivial = contains a legacy symbol")
+    bad = const_checks(rep, impl=False)
+    n = 4 if quick else 5
+    for compat in (True, False):
+        results, vectors = de.run_decoder_tlc("legacy_%s" % compat, LEGACY, "default", n, compat=compat, emit=True,
+                                              invariants=["CompatIsModern"], fastjit=quick)
+        add_results(rep, "legacy_compat=%s" % compat, results, alphabet=LEGACY, max_symbols=n, vectors=len(vectors))
+        mism = de.replay_decoder_vectors(vectors, "default", compat)
+        rep.traces += len(vectors)
+        for v in vectors:
+            rep.case((compat, tuple(v["inp"])), nontrivial=any("xpl" in t or "_" in t for t in v["inp"]))
+        for v in vectors[:: max(1, len(vectors) // 2)][:2]:
+            rep.sample({"compatible": compat, "input": "".join(v["inp"]), "expect": [v["kind"], v["out"]]})
+        judge_mismatches(rep, "legacy_%s" % compat, mism, "default", compat, default_classify)
+    # modern-only strings: flag on = flag off (long random strings)
+    rng = random.Random(seed() + 1818)
+    inputs = [gens.alive_selfies(rng, rng.randint(3, 120)) for _ in range(200 if quick else 2000)]
+    r_off = de.record_decoder(inputs, "default", False)
+    r_on = de.record_decoder(inputs, "default", True)
+    for a, b in zip(r_off, r_on):
+        if (a["kind"], a["out"]) != (b["kind"], b["out"]):
+            rep.violation("compatible=True changes a string without legacy symbols: %r" % "".join(a["inp"]),
+                          {"tokens": a["inp"], "off": [a["kind"], a["out"]], "on": [b["kind"], b["out"]]})
+    trace_validate(rep, "C18_modern_on", r_on, "default", True)
+    # random mixes of legacy and modern symbols, flag on
+    mixes = []
+    for _ in range(200 if quick else 2000):
+        t = gens.alive_selfies(rng, rng.randint(3, 60))
+        for _ in range(rng.randint(1, 5)):
+            t.insert(rng.randint(0, len(t)), rng.choice(LEGACY[2:13]))
+        mixes.append(t)
+    trace_validate(rep, "C18_mix_on", de.record_decoder(mixes, "default", True), "default", True)
+    trace_validate(rep, "C18_mix_off", de.record_decoder(mixes, "default", False), "default", False)
+    rep.exhaustive = True
+    return rep.finish()
+
+
+# --------------------------------------------------------------------------
+# C16 - index symbols: base-16 positional code
+# --------------------------------------------------------------------------
+
+def check_C16(tier):
+    rep = Report("C16", tier)
+    quick = tier == "quick"
+    rep.notes["rule"] = ("constant level: all n < 16^3 and all symbol triples (ConstChecks); binding through the public "
+                         "API: decoder on chains with every index-symbol tuple after ring / branch symbols, encoder on "
+                         "macrocycles and long branches for every n; non-trivial = index value > 0")
+    bad = const_checks(rep, impl=True)
+    for f in bad:
+        if "ImplIndex" in f or "A0" in f:
+            rep.violation("the working tree's INDEX_ALPHABET differs from the documented order", {"assumption": f})
+    digits = IDX + ["[F]", "[=Ring1]"]
+    inputs = []
+    # one and two index symbols, and a missing symbol at the end
+    for a in digits:
+        inputs.append(["[C]"] * 20 + ["[Ring1]", a, "[C]"])
+        inputs.append(["[C]"] * 3 + ["[Branch1]", a] + ["[C]"] * 18)
+        inputs.append(["[C]"] * 20 + ["[Ring2]", a])
+        for b in digits:
+            inputs.append(["[C]"] * 300 + ["[Ring2]", a, b, "[C]"])
+            inputs.append(["[C]"] * 3 + ["[Branch2]", a, b] + ["[C]"] * 270 + ["[O]"])
+    tri = [(a, b, c) for a in digits[:2] + ["[F]"] for b in digits for c in digits]
+    if quick:
+        rng = random.Random(seed() + 16)
+        tri = rng.sample(tri, 150)
+    else:
+        tri += [(a, b, c) for a in digits[2:5] for b in digits[::3] for c in digits[::5]]
+    for a, b, c in tri:
+        inputs.append(["[C]"] * (600 if a in digits[:2] + ["[F]"] else 1300) + ["[Ring3]", a, b, c, "[C]"])
+    recs = de.record_decoder(inputs, "default")
+    for rec in recs:
+        rep.case(tuple(rec["inp"][-5:]) + (len(rec["inp"]),), nontrivial=True)
+    rep.sample({"input": "[C]*300 + [Ring2][=N][S][C]", "meaning": "ring closes 16*11+14+1 atoms back"})
+    trace_validate(rep, "C16_decoder", recs, "default")
+    try:
+        import checks_enc
+        checks_enc.index_encoder_side(rep, quick)
+    except ImportError:
+        rep.notes["encoder_side"] = "not built yet"
+    rep.exhaustive = True
+    return rep.finish()
